@@ -27,7 +27,7 @@ ASSUMPTIONS = ['refscope implements ES5 scoping (10.2, 10.5, 12.14, 13); program
                'the rule composition passes reserved_keywords exactly as minify_printer does']
 BUDGET_S = {'quick': 70, 'thorough': 900}
 REQUIRED_HITS = ['obfuscated_print', 'occurrences_checked', 'Obfuscator.finalize', 'NameGenerator.next', 'reused_printer']
-FLOOR = {'quick': 1500, 'thorough': 30000}
+FLOOR = {'quick': 1500, 'thorough': 20000}
 
 RESERVED = refjs.RESERVED
 
